@@ -181,13 +181,14 @@ impl Check for C13 {
             }
         });
         // wide and tall surfaces: device coordinates beyond 256
-        run.bound("wide-tall", "300x2 and 2x300 surfaces x 2 images x pad/repeat x nearest/bilinear x 4 source transforms x 2 alphas".to_string());
+        run.bound("wide-tall", "300x2 and 2x300 surfaces x 5 images (3x2, 2x3, 300x2, 2x300, 263x1) x pad/repeat x nearest/bilinear x 4 source transforms x 2 alphas".to_string());
         run.par(8, |s, l| {
             let (w, h) = if s % 2 == 0 { (300, 2) } else { (2, 300) };
             let repeat = (s / 2) % 2 == 1;
             let bilinear = s / 4 == 1;
-            for (ii, &(iw, ih)) in [(3, 2), (2, 3)].iter().enumerate() {
-                let data = image_of(iw, ih, &DISTINCT16, ii + 5);
+            // the long images have texel colours with period 251 (not a divisor of 256 or 65536)
+            for (ii, &(iw, ih)) in [(3, 2), (2, 3), (300, 2), (2, 300), (263, 1)].iter().enumerate() {
+                let data: Vec<u32> = if iw * ih <= 6 { image_of(iw, ih, &DISTINCT16, ii + 5) } else { (0..(iw * ih) as u32).map(|i| { let k = i % 251; 0xff000000 | (k << 16) | ((250 - k) << 8) | ((k * 7) & 0xff) }).collect() };
                 for t in [IDENT, [1., 0., 0., 1., -250., -250.], [0.5, 0., 0., 0.5, 0.25, 0.25], [1., 0., 0., 1., -255.5, -257.25]] {
                     for alpha in [1.0f32, 0.5] {
                         let src = SrcSpec::Image { w: iw, h: ih, data: data.clone(), repeat, bilinear, xf: t };
